@@ -5,6 +5,7 @@ package main
 // through a scripted reader. Every operation is one trace event.
 
 import (
+	"sort"
 	"encoding/binary"
 	stderrors "errors"
 	"io"
@@ -103,6 +104,7 @@ type scriptReader struct {
 	// errWithData: the end of the data (EOF or the injected error) is reported by the same Read call that
 	// delivers the last bytes, as io.Reader allows (iotest.DataErrReader, some network readers)
 	errWithData bool
+	bounds      *[]int // when set: the stream offset reached after every Read call (the caller's own chunking)
 }
 
 func (r *scriptReader) Read(p []byte) (int, error) {
@@ -129,6 +131,9 @@ func (r *scriptReader) Read(p []byte) (int, error) {
 	}
 	copy(p, r.data[r.used:r.used+n])
 	r.used += n
+	if r.bounds != nil {
+		*r.bounds = append(*r.bounds, r.used)
+	}
 	if r.errWithData && r.used == limit && n > 0 {
 		if limit < len(r.data) && r.fault == "inj" {
 			return n, errInj
@@ -170,10 +175,51 @@ func execPB(in In, em *Emitter) {
 	rpos := 0
 	dst := map[string]proto.Message{}        // destination messages are reused across calls, as a caller would
 	em.Emit("Stream", J{"bytes": []int64{}}) // every history starts on a fresh, empty stream
-	for _, op := range in.L("ops") {
+	ops := in.L("ops")
+	for oi := 0; oi < len(ops); oi++ {
+		op := ops[oi]
 		k := op.S("k")
 		ev := J{}
 		var abn string
+		if k == "CutScan" {
+			// Where does the library's own chunking end a Read? The stream is read once, completely, through a reader
+			// that hands out whatever is asked for and records the offsets reached; then the ordinary operations
+			// "Unmarshal with the stream cut at such an offset (-1, +0, +1), Rewind" are queued: end-of-stream handling
+			// changes exactly at the block boundaries of the implementation, whatever its block size is. (An input
+			// selector: the queued operations are ordinary events, judged like any other.)
+			var bounds []int
+			kind := op.S("kind")
+			quiet(func() {
+				pbcmpl.Unmarshal(&scriptReader{data: wire, avail: -1, fault: "EOF", bounds: &bounds}, mkMsg(kind, false, "", nil))
+			})
+			pick := map[int]bool{}
+			for i, b := range bounds {
+				if i < 24 || i >= len(bounds)-12 || i%((len(bounds)/24)+1) == 0 {
+					for d := -1; d <= 1; d++ {
+						if c := b + d; c >= 0 && c < len(wire) {
+							pick[c] = true
+						}
+					}
+				}
+			}
+			var cuts []int
+			for c := range pick {
+				cuts = append(cuts, c)
+			}
+			sort.Ints(cuts)
+			var queued []In
+			for i, c := range cuts {
+				fault := "EOF"
+				if i%4 == 3 {
+					fault = "inj"
+				}
+				queued = append(queued, In{J{"k": "Rewind"}}, In{J{"k": "Unmarshal", "avail": c, "fault": fault, "chunks": []interface{}{}, "kind": kind, "ewd": i%3 == 1}})
+			}
+			queued = append(queued, In{J{"k": "Rewind"}}, In{J{"k": "Unmarshal", "avail": -1, "fault": "EOF", "chunks": []interface{}{}, "kind": kind}})
+			ops = append(ops[:oi+1], append(queued, ops[oi+1:]...)...)
+			em.Scanned(1)
+			continue
+		}
 		switch k {
 		case "Stream":
 			wire = append([]byte{}, op.Bs("bytes")...)
@@ -548,6 +594,14 @@ func genC07(g *Gen) {
 			ops = append(ops, J{"k": "Unmarshal", "avail": -1, "fault": "EOF", "chunks": pbChunks(g), "kind": k2})
 		}
 		g.Case("pb", J{"ops": withEWD(g, ops)})
+	}
+	// frames of 70 KB .. 1.2 MB (thorough: 4.3 MB) re-read cut at the offsets where the implementation's own Read calls
+	// end (CutScan): block sizes nobody would guess (e.g. 2^20 - 512) are found by looking
+	for c := 0; c < g.N(3, 12); c++ {
+		bl := []int{1200000, 70000, 300000, 2200000, 4300000, 1048064 + 40, 131072, 600000, 3000000, 1100000, 65536, 2097152}[c]
+		kind := []string{"raw", "raw", "pb"}[c%3]
+		mk := J{"k": "Marshal", "kind": kind, "hasver": c%2 == 0, "vers": "1.2.3", "plen": bl, "w": [][]int64{}}
+		g.Case("pb", J{"ops": []J{mk, {"k": "CutScan", "kind": kind}}})
 	}
 	// one large frame, read again and again (Rewind) with the stream cut at every block boundary j*2^k and
 	// 32 + j*2^k (+-1) for 2^k = 512 .. 65536: chunked body readers change their EOF handling exactly there
